@@ -137,6 +137,9 @@ func (ce *CEnv) resolveType(te TypeExpr) types.Type {
 		if strings.HasPrefix(p, "[]") {
 			wrap = append(wrap, "[]")
 			p = p[2:]
+		} else if strings.HasPrefix(p, "~") {
+			wrap = append(wrap, "~")
+			p = p[1:]
 		} else {
 			wrap = append(wrap, "*")
 			p = p[1:]
@@ -145,6 +148,8 @@ func (ce *CEnv) resolveType(te TypeExpr) types.Type {
 	for i := len(wrap) - 1; i >= 0; i-- {
 		if wrap[i] == "[]" {
 			base = types.NewSlice(base)
+		} else if wrap[i] == "~" {
+			base = types.NewArray(base, 0) // element row: (Array (_ BitVec 64) elem)
 		} else {
 			base = types.NewPointer(base)
 		}
@@ -779,6 +784,12 @@ func (ce *CEnv) call(e *ECall) CVal {
 		region, es := ce.elemRegion(sl.Elem())
 		rowS := arraySort(bvSort(64), es)
 		return CVal{T: mk(rowS, "select", ce.u.heapGet(ce.heap, region), sBase(x.T)), Ty: types.NewArray(sl.Elem(), 0)}
+	case "soff":
+		x := ce.eval(e.Args[0])
+		if x.T.Sort != SSlice {
+			efail("soff of non-slice")
+		}
+		return CVal{T: sOff(x.T), Ty: types.Typ[types.Int]}
 	case "deref":
 		x := ce.eval(e.Args[0])
 		p, ok := x.Ty.Underlying().(*types.Pointer)
@@ -903,6 +914,9 @@ func (ce *CEnv) callSpec(sf *SpecFunc, e *ECall) CVal {
 		hkey += "|" + ce.wmEntry.S
 	}
 	defName, ok := u.specDefs[hkey]
+	if pn, isPure := u.specPure[sf.Name]; isPure {
+		defName, ok = pn, true
+	}
 	if !ok {
 		if nm, busy := u.specBusy[hkey]; busy {
 			// recursive reference
@@ -913,7 +927,12 @@ func (ce *CEnv) callSpec(sf *SpecFunc, e *ECall) CVal {
 			defName = fmt.Sprintf("%s@%d", sf.Name, u.specN)
 			u.specBusy[hkey] = defName
 			senv.want = rt
+			reads0 := u.heapReads
 			r := senv.eval(sf.Body)
+			if u.heapReads == reads0 {
+				// the body never looked at the heap: one definition serves every state
+				u.specPure[sf.Name] = defName
+			}
 			if r.Ty == nil {
 				r = ce.coerce(r, rt)
 			}
